@@ -7,6 +7,7 @@ import (
 	"runtime"
 	"sort"
 	"strconv"
+	"strings"
 	"testing"
 	"time"
 
@@ -83,16 +84,58 @@ func runOnce(t *testing.T, sc *Scenario, tape *sim.Tape, tier string, keep bool)
 // curRun is the run index handed to scenarios (search: the index; replay: from the replay file).
 var curRun uint64
 
+// race is the race detector's log of this process (race-mode builds only).
+var race *raceLog
+
+func initRaceLog() {
+	if p := os.Getenv("VERIF_RACE_LOG"); p != "" && race == nil {
+		race = &raceLog{path: fmt.Sprintf("%s.%d", p, os.Getpid())}
+	}
+}
+
 func runOnceF(t *testing.T, sc *Scenario, tape *sim.Tape, tier string, keep bool, fault *sim.FaultSpec, keepIO bool) (*sim.Result, *Ctx) {
 	opts := sc.Opts
 	opts.KeepTrace = keep
 	opts.FaultAt = fault
 	opts.KeepIO = keepIO
 	var ctx *Ctx
-	res := sim.Execute(t, tape, opts, func(s *sim.Sim) {
-		ctx = &Ctx{S: s, T: tape, Tier: tier, Run: curRun}
-		sc.Run(ctx)
-	})
+	var res *sim.Result
+	// Execute runs on a goroutine of its own: in a race-mode binary the testing package answers a
+	// detector report with t.FailNow(), i.e. runtime.Goexit() of whoever called synctest.Test.
+	done := make(chan struct{})
+	go func() {
+		defer close(done)
+		res = sim.Execute(t, tape, opts, func(s *sim.Sim) {
+			ctx = &Ctx{S: s, T: tape, Tier: tier, Run: curRun}
+			sc.Run(ctx)
+		})
+	}()
+	<-done
+	if res == nil {
+		res = sim.LastResult()
+	}
+	if race != nil {
+		lib, harness := parseRaces(race.read())
+		res.Probes["race.harness_reports_ignored"] += harness
+		res.Probes["race.library_reports"] += len(lib)
+		if sc.Prop == "C20" {
+			res.Violations = nil // the sub-workloads' functional oracles belong to their own properties
+		}
+		for _, v := range lib {
+			v.Step = res.Steps
+			dup := false
+			for _, o := range res.Violations {
+				if o.Sig == v.Sig {
+					dup = true
+				}
+			}
+			if !dup {
+				res.Violations = append(res.Violations, v)
+			}
+		}
+	} else if sc.Prop == "C20" {
+		res.Violations = nil
+	}
 	if sc.Post != nil && ctx != nil {
 		for _, v := range sc.Post(ctx, res) {
 			dup := false
@@ -225,6 +268,7 @@ func TestWorker(t *testing.T) {
 	if mode == "" {
 		t.Skip("VERIF_MODE not set")
 	}
+	initRaceLog()
 	prop := os.Getenv("VERIF_PROP")
 	sc := Lookup(prop)
 	if sc == nil {
@@ -247,6 +291,9 @@ func TestWorker(t *testing.T) {
 		fmt.Fprintln(os.Stderr, "bad VERIF_MODE")
 		os.Exit(2)
 	}
+	// leave directly: in a race-mode binary the testing package would turn any detector report into
+	// a failed test, but reports are this worker's *data* (already parsed into the result file)
+	os.Exit(0)
 }
 
 func workerSearch(t *testing.T, sc *Scenario, tier string) {
@@ -308,7 +355,14 @@ func workerSearch(t *testing.T, sc *Scenario, tier string) {
 			vo := &violationOut{Sig: v.Sig, Msg: v.Msg, Seed: seed, Run: run, Step: v.Step, OrigLen: len(res.Tape), Count: 1, Fault: fault}
 			bySig[v.Sig] = vo
 			out.Violations = append(out.Violations, vo)
-			min, ex := shrink(t, sc, tier, res.Tape, v.Sig, budget, fault)
+			min, ex := res.Tape, 0
+			if strings.HasPrefix(v.Sig, "C20|race|") {
+				// the detector reports one stack pair once per process: no in-process minimisation;
+				// the replay file carries the full tape and is replayed in a fresh process
+				vo.Tape, vo.Stable, vo.Digest, vo.Plan = res.Tape, "n/a (race report)", fmt.Sprintf("%016x", res.Digest), res.Plan
+				continue
+			}
+			min, ex = shrink(t, sc, tier, res.Tape, v.Sig, budget, fault)
 			vo.ShrinkEx = ex
 			// final: replay the minimised tape three times, keep the trace
 			okN := 0
